@@ -1193,13 +1193,13 @@ def analyse_search(norm_steps, t_tol, n_tol, target, tp, tf, recs):
     prev_g = None
     stag = False
     for tries in range(1, norm_steps + 1):
-        if (tf - tp) < t_tol:
+        if tf <= tp + t_tol:
             succ = tries
             break
         if not recs:
             return "inconsistent", False
         g, n2 = recs.pop(0)
-        if prev_g is not None and g == prev_g and (tf - tp) <= t_tol * (1 + 1e-9):
+        if prev_g is not None and g == prev_g:
             stag = True
         prev_g = g
         if abs(target - n2) < n_tol * target:
@@ -1476,7 +1476,7 @@ def run(ctx):
             ctx.violation(site, sig, msg, {"kind": "scripted", "case": c})
     ctx.sample({"scripted_case": cases[-1], "impl_trace": canon_impl(impls[-1])})
 
-    # ---- the refuted theorem replayed on the real solver
+    # ---- the former last-try defect (norm_steps=1) on the real solver: must not raise
     msg = witness_real_norm_steps()
     ctx.count_case("witness-real-norm_steps")
     if msg is not None:
